@@ -395,7 +395,7 @@ def _anchored_modules() -> dict:
 ANCHORED = _anchored_modules()
 
 
-ROUND4 = {'C01': ['epsg_str_canonical', 'explicit_crs_checked', 'wrapper_keywords'], 'C02': ['poly_fit_rank_safe'], 'C20': ['poly_fit_rank_safe'], 'C03': ['scale_fit_offsets'], 'C04': ['tiles_edge_cases'], 'C05': ['cog_header_and_dtype'], 'C06': ['mpu_task_hygiene'], 'C07': ['epsg_str_canonical'], 'C09': ['affine_st_relative'], 'C10': ['warp_buffers'], 'C13': ['warp_buffers', 'tile_query_nonlinear'], 'C11': ['same_crs_shortcut'], 'C12': ['tile_query_nonlinear'], 'C14': ['web_tiles_exact'], 'C15': ['rio_writer_inputs'], 'C16': ['grid_union_details'], 'C17': ['slice_normalisation'], 'C18': ['sink_identity'], 'C19': ['epsg_str_canonical', 'token_no_raw_arrays']}
+ROUND4 = {'C01': ['epsg_str_canonical', 'explicit_crs_checked', 'wrapper_keywords'], 'C02': ['poly_fit_rank_safe', 'dispatch_matches_precondition'], 'C20': ['poly_fit_rank_safe', 'dispatch_matches_precondition'], 'C03': ['scale_fit_offsets'], 'C04': ['tiles_edge_cases'], 'C05': ['cog_header_and_dtype'], 'C06': ['mpu_task_hygiene'], 'C07': ['epsg_str_canonical'], 'C09': ['affine_st_relative'], 'C10': ['warp_buffers'], 'C13': ['warp_buffers', 'tile_query_nonlinear'], 'C11': ['same_crs_shortcut'], 'C12': ['tile_query_nonlinear'], 'C14': ['web_tiles_exact'], 'C15': ['rio_writer_inputs'], 'C16': ['grid_union_details'], 'C17': ['slice_normalisation'], 'C18': ['sink_identity'], 'C19': ['epsg_str_canonical', 'token_no_raw_arrays']}
 
 
 def _with_generic(pid, fn):
